@@ -6,6 +6,7 @@ import (
 	"go/token"
 	"go/types"
 	"math/big"
+	"sort"
 	"strings"
 
 	"golang.org/x/tools/go/ssa"
@@ -13,8 +14,68 @@ import (
 
 // SpecVal is the value of a spec expression: a term plus (when it denotes a Go value) its Go type.
 type SpecVal struct {
-	T  Term
-	Ty types.Type // nil for mathematical integers / booleans / abstract sorts
+	T   Term
+	Ty  types.Type // nil for mathematical integers / booleans / abstract sorts
+	Dyn types.Type // for interface values whose dynamic type is statically known
+}
+
+// reachKeys lists the heap arrays holding memory reachable from a value of type t (through
+// pointers, slices, maps and struct fields). ok is false when an interface makes the set unknown.
+func (fx *FnExec) reachKeys(t types.Type) ([]string, bool) {
+	seen := map[string]bool{}
+	keys := map[string]bool{}
+	ok := true
+	var walk func(t types.Type, deref bool)
+	walk = func(t types.Type, deref bool) {
+		switch u := t.Underlying().(type) {
+		case *types.Pointer:
+			et := u.Elem()
+			if isStruct(et) {
+				id := "p:" + types.TypeString(et, nil)
+				if seen[id] {
+					return
+				}
+				seen[id] = true
+				si := fx.tc.StructOf(et)
+				for _, f := range si.Fields {
+					keys[fx.tc.FieldKey(si, f)] = true
+					walk(f.Type, false)
+				}
+				return
+			}
+			keys[fx.tc.BoxKey(et)] = true
+			walk(et, false)
+		case *types.Struct:
+			si := fx.tc.StructOf(t)
+			for _, f := range si.Fields {
+				walk(f.Type, false)
+			}
+		case *types.Slice:
+			id := "s:" + types.TypeString(u.Elem(), nil)
+			if seen[id] {
+				return
+			}
+			seen[id] = true
+			keys[fx.tc.ElemKey(u.Elem())] = true
+			walk(u.Elem(), false)
+		case *types.Array:
+			walk(u.Elem(), false)
+		case *types.Map:
+			d, v := fx.tc.MapKeys(u)
+			keys[d], keys[v] = true, true
+			walk(u.Key(), false)
+			walk(u.Elem(), false)
+		case *types.Interface:
+			ok = false
+		}
+	}
+	walk(t, true)
+	out := make([]string, 0, len(keys))
+	for k := range keys {
+		out = append(out, k)
+	}
+	sort.Strings(out)
+	return out, ok
 }
 
 type SpecError struct{ Msg string }
@@ -33,6 +94,7 @@ type SpecEnv struct {
 	loop   *loopInfo
 	locals bool // identifiers may name local variables (current cell contents)
 	inOld  bool
+	pos    token.Pos // source position used to resolve local names when not at a loop
 	// recursive spec function definition in progress
 	recName string
 	recKeys *[]string
@@ -417,21 +479,20 @@ func (env *SpecEnv) index(x SIndex) SpecVal {
 }
 
 func (env *SpecEnv) importedPkg(name string) *types.Package {
-	if env.pkg == nil {
-		return nil
-	}
-	for _, p := range env.pkg.Imports() {
-		if p.Name() == name {
-			return p
-		}
-	}
-	if env.pkg.Name() == name {
+	if env.pkg != nil && env.pkg.Name() == name {
 		return env.pkg
 	}
-	// any loaded package by name
+	// canopy packages take precedence over same-named standard packages (lib/crypto vs crypto)
 	for _, p := range env.fx.g.prog.AllPackages() {
 		if p.Pkg.Name() == name && strings.Contains(p.Pkg.Path(), "canopy") {
 			return p.Pkg
+		}
+	}
+	if env.pkg != nil {
+		for _, p := range env.pkg.Imports() {
+			if p.Name() == name {
+				return p
+			}
 		}
 	}
 	switch name {
@@ -554,7 +615,7 @@ func (env *SpecEnv) isLocalName(name string) bool { return env.findLocal(name) !
 // findLocal resolves a variable name to its storage cell using the Go scopes at the loop.
 func (env *SpecEnv) findLocal(name string) *ssa.Alloc {
 	fx := env.fx
-	var pos token.Pos
+	pos := env.pos
 	if env.loop != nil {
 		pos = env.loop.minPos
 	}
@@ -776,6 +837,20 @@ func (env *SpecEnv) call(x SCall) SpecVal {
 		v := argv(0)
 		registerHeapKey("BigVal", ArraySort(SInt, SInt))
 		return SpecVal{T: Select(fx.Heap(env.state(), "BigVal"), v.T)}
+	case "fresh":
+		// fresh(x): the object x refers to was allocated after the old() state
+		v := argv(0)
+		if env.old == nil {
+			specFail("fresh() needs an old state")
+		}
+		ref := v.T
+		switch v.T.Sort {
+		case SIface:
+			ref = App("if.val", SInt, v.T)
+		case SSlice:
+			ref = App("sl.base", SInt, v.T)
+		}
+		return SpecVal{T: App(">=", SBool, ref, env.old.nextRef)}
 	case "wrap64":
 		return SpecVal{T: App("wrapU", SInt, argv(0).T, BigLit(pow2(64)))}
 	}
@@ -810,6 +885,10 @@ func (env *SpecEnv) callSpecFunc(sf *SpecFunc, x SCall) SpecVal {
 		ty, srt := fenv.resolveType(p.Type)
 		ptys = append(ptys, ty)
 		psorts = append(psorts, srt)
+		if args[i].T.Sort != srt && srt == SIface && args[i].Ty != nil {
+			// implicit conversion of a concrete value to the interface parameter
+			args[i] = SpecVal{T: fx.makeIface(args[i].T, args[i].Ty), Ty: ty, Dyn: args[i].Ty}
+		}
 		if args[i].T.Sort != srt {
 			// nil literal
 			if ty != nil && args[i].Ty != nil {
@@ -821,6 +900,10 @@ func (env *SpecEnv) callSpecFunc(sf *SpecFunc, x SCall) SpecVal {
 			specFail("%s: argument %d has sort %s, want %s", sf.Name, i, args[i].T.Sort, srt)
 		}
 	}
+	if sf.Ghost {
+		key := ghostKey(sf, psorts[0], retSort)
+		return SpecVal{T: Select(fx.Heap(env.state(), key), args[0].T), Ty: retTy}
+	}
 	if sf.Body == nil {
 		// uninterpreted
 		name := "sf$" + sanitize(sf.Name)
@@ -828,6 +911,35 @@ func (env *SpecEnv) callSpecFunc(sf *SpecFunc, x SCall) SpecVal {
 		ts := make([]Term, len(args))
 		for i := range args {
 			ts[i] = args[i].T
+		}
+		if sf.ReadsReach && len(args) > 0 {
+			ct := args[0].Dyn
+			if ct == nil && args[0].Ty != nil && !isIface(args[0].Ty) {
+				ct = args[0].Ty
+			}
+			if ct != nil {
+				if keys, ok := fx.reachKeys(ct); ok {
+					rname := name + "$r$" + sanitize(shortTypeName(ct))
+					srts := append([]string(nil), psorts...)
+					for _, k := range keys {
+						srts = append(srts, heapSorts[k])
+						ts = append(ts, fx.Heap(env.state(), k))
+					}
+					fx.sc.Declare("uf:"+rname, fmt.Sprintf("(declare-fun %s (%s) %s)", rname, strings.Join(srts, " "), retSort))
+					return SpecVal{T: App(rname, retSort, ts...), Ty: retTy}
+				}
+			}
+		}
+		if sf.ReadsHeap {
+			// value may depend on anything in the heap: parametrised by the heap version token
+			name += "$h"
+			fx.sc.Declare("uf:"+name, fmt.Sprintf("(declare-fun %s (%s Int) %s)", name, strings.Join(psorts, " "), retSort))
+			hv := env.state().hv
+			if hv.S == "" {
+				hv = TZero
+			}
+			ts = append(ts, hv)
+			return SpecVal{T: App(name, retSort, ts...), Ty: retTy}
 		}
 		if len(ts) == 0 {
 			return SpecVal{T: Term{name, retSort}, Ty: retTy}
@@ -960,4 +1072,8 @@ func sortEnd(s string) int {
 		}
 	}
 	return strings.Index(s, " ")
+}
+
+func ghostKey(sf *SpecFunc, ksort, vsort string) string {
+	return registerHeapKey("GH$"+sanitize(sf.Name), ArraySort(ksort, vsort))
 }
